@@ -2,3 +2,7 @@ import TephraProps.C14
 #print axioms Tephra.Props.C14_empty_capture
 #print axioms Tephra.Props.C14_single_token
 #print axioms Tephra.Props.C14_model_clamp
+#print axioms Tephra.Props.C14_partial
+#print axioms Tephra.Props.C14_spanned
+#print axioms Tephra.Props.C14_text
+#print axioms Tephra.Props.C14_extends_C07
